@@ -1,3 +1,5 @@
+import numpy as np
+
 from cubed.array_api.creation_functions import full
 from cubed.array_api.manipulation_functions import concat
 
@@ -23,6 +25,10 @@ def _pad_constant(x, pad_width, constant_values, chunks):
     ):
         if pad_before == 0 and pad_after == 0:
             continue
+        # like numpy.pad, cast the constants to the array's dtype up front
+        # (otherwise an out-of-range value only fails when the task runs)
+        val_before = np.asarray(val_before).astype(result.dtype).item()
+        val_after = np.asarray(val_after).astype(result.dtype).item()
         arrays = []
         if pad_before > 0:
             shape = list(result.shape)
